@@ -32,6 +32,7 @@ def strat_reductions(draw, tier):
                                  'nested_tuple', 'cnl_tuple', 'nested_mu_tuple']))
     case = dict(table=table, alts=alts, kind=kind, utils=draw(mc.utilities(info, alts, BETA_POOL)),
                 av=draw(mc.availabilities(info, alts)), nests=None, mu=None, log_gi=None, np_seed=0)
+    case['av_order'] = list(draw(st.permutations(alts))) if draw(st.booleans()) else None
     if kind == 'nested_all_one':
         case['nests'] = draw(mc.nested_structure(alts, force_all_one=True))
     elif kind in ('nested_mu_one', 'nested_tuple', 'nested_mu_tuple'):
